@@ -246,6 +246,7 @@ def parseOp (line : String) : Option Op :=
     let cnt ← (if n == "N" then some none else (iOf n).map some)
     some (.cgetn (← hOf 'b' b) cnt)
   | "buf" :: fr :: ch :: r => do some (.buf (← iOf fr) (← iOf ch) none true (← complOnly r))
+  | "bufnc" :: fr :: ch :: r => do some (.buf (← iOf fr) (← iOf ch) none true (← complOnly r))   -- cache=False: same commands
   | "bufx" :: fr :: ch :: num :: r => do
     some (.buf (← iOf fr) (← iOf ch) (some (← iOf num)) true (← complOnly r))
   | ["bufna", fr, ch] => do some (.buf (← iOf fr) (← iOf ch) none false .none)
@@ -292,7 +293,7 @@ def parseOp (line : String) : Option Op :=
 
 def bufAllocOp (line : String) : Bool :=
   match (line.trimAscii.toString.splitOn " ").filter (· ≠ "") with
-  | w :: _ => ["buf", "bufx", "bufna", "bufcons", "bufconsx", "bfree", "bfreeall"].contains w
+  | w :: _ => ["buf", "bufnc", "bufx", "bufna", "bufcons", "bufconsx", "bfree", "bfreeall"].contains w
   | [] => false
 
 def blocksStr (cl : Client) : String :=
